@@ -110,28 +110,28 @@ type Targets struct {
 }
 
 type tr struct {
-	fset    *token.FileSet
-	info    *types.Info
-	pkg     *types.Package
-	known   map[string]bool // translated function names (for calls)
-	notes   []string
-	errs    []string
-	curFn   string
-	segIn   map[types.Object]bool
-	helpers []string
-	selTy   map[string]ty
-	swCount int
+	fset     *token.FileSet
+	info     *types.Info
+	pkg      *types.Package
+	known    map[string]bool // translated function names (for calls)
+	notes    []string
+	errs     []string
+	curFn    string
+	segIn    map[types.Object]bool
+	helpers  []string
+	selTy    map[string]ty
+	swCount  int
 	tmpCount int
-	useCopy bool
+	useCopy  bool
 	rngCount int
-	cnt     map[string]int // helper definitions (switch, loop) are numbered per translated function / segment
-	indent  int
-	decls   map[string]*ast.FuncDecl // every function of the package by name (methods as Recv.Method)
-	finfo   map[string]*fnInfo
-	nonnil  map[string]bool // functions that always return a non-nil error (fmt.Errorf, errors.New + pinned externs)
-	opt     bool            // the function / segment being translated can panic: its result is an Option
-	resTypes []types.Type   // result types of the Go function being translated (types an untyped nil in a return)
-	outs    []string        // receiver fields the function being translated assigns (returned in front of the results)
+	cnt      map[string]int // helper definitions (switch, loop) are numbered per translated function / segment
+	indent   int
+	decls    map[string]*ast.FuncDecl // every function of the package by name (methods as Recv.Method)
+	finfo    map[string]*fnInfo
+	nonnil   map[string]bool // functions that always return a non-nil error (fmt.Errorf, errors.New + pinned externs)
+	opt      bool            // the function / segment being translated can panic: its result is an Option
+	resTypes []types.Type    // result types of the Go function being translated (types an untyped nil in a return)
+	outs     []string        // receiver fields the function being translated assigns (returned in front of the results)
 }
 
 // fnInfo: how a translated function is called (see "methods with a struct receiver" in the header comment)
@@ -579,7 +579,6 @@ func (t *tr) call(x *ast.CallExpr) string {
 	}
 	return t.fail(x, "call %s", src(t.fset, x.Fun))
 }
-
 
 // ---- functions as callees: struct receivers, panics
 
@@ -1467,9 +1466,10 @@ func (t *tr) switchStmt(x *ast.SwitchStmt) string {
 	return fmt.Sprintf("%slet %s := %s %s %s\n", p, tp, hname, t.expr(x.Tag), strings.Join(args, " "))
 }
 
-
 // counted loops (see the header comment for the accepted forms):
-//   for i := a; i < b; i++ / i <= b; i++ / i > b; i-- / i >= b; i-- { body }      and      for i := range x / for i, v := range x (x a byte slice)
+//
+//	for i := a; i < b; i++ / i <= b; i++ / i > b; i-- / i >= b; i-- { body }      and      for i := range x / for i, v := range x (x a byte slice)
+//
 // A range statement is rewritten to the ForStmt it abbreviates before translation.
 func (t *tr) rangeStmt(r *ast.RangeStmt) string {
 	p := t.pad()
